@@ -101,4 +101,54 @@ ReplayStep(acc, e) ==
        ELSE [ok |-> TRUE, F |-> (acc.F \ {g1, g2}) \cup {MergeGroups(g1, g2, e.tr)}]
 Replay(inputs, merges) ==
   FoldLeft(ReplayStep, [ok |-> TRUE, F |-> {Leaf(k, inputs[k]) : k \in DOMAIN inputs}], merges)
+(* ---- object identity of the inputs ---------------------------------------------------------
+   `sequences` is a Python list: the caller may pass the very same Sequence object at several
+   positions ("identical" sequences of the property's quantifier given as one object).
+   objs[k] = first position that holds the object of position k (canonical labelling), so
+   objs = <<1, 2, .., n>> means n distinct objects.  Same object => same content.
+   The postcondition does not mention objs: the result must not depend on it, and the call
+   must leave the caller's objects as they were (`after` = contents of the input objects when
+   the call has returned; "rows equal the inputs" is meaningless if the inputs move). *)
+ObjPatterns(n) == {o \in [1..n -> 1..n] : \A k \in 1..n : o[k] <= k /\ o[o[k]] = o[k]}
+NoSharing(n) == [k \in 1..n |-> k]
+Dom_Objs(inputs, objs) ==
+  /\ Len(objs) = Len(inputs)
+  /\ \A k \in DOMAIN objs : objs[k] \in 1..k /\ objs[objs[k]] = objs[k]
+  /\ \A k \in DOMAIN objs : inputs[k] = inputs[objs[k]]
+Shared(objs) == \E k \in DOMAIN objs : objs[k] # k
+InputsUnchanged(inputs, after) == after = inputs
+
+(* The progressive alignment as the code runs it: Sequence objects on a heap H (object number ->
+   current code, Gap = the neutral gap symbol), groups hold REFERENCES.  Slots 1..n are the
+   caller's objects (slot k is used when objs[k] = k), slots n+1..2n the copies made in the
+   leaf case of _progressive_align.  A merge re-assigns `seq.code = _replace_gaps(...)` for every
+   reference of both groups, one after the other (ExpandAll is that loop: an object referenced
+   twice is expanded twice).  At the end the gapped codes are read, the gap symbols are
+   stripped in place, rows are reordered by ArgSort(order).
+   copy = TRUE is the design; copy = FALSE (leaf case returns the caller's object) is kept
+   to show what the copy is for: HeapRun(.., FALSE) agrees with the value machine exactly when
+   no object is shared or no gap is inserted (ASSUMEs in MCMsa). *)
+ExpandAll(H, refs, aln, side) ==
+  FoldLeft(LAMBDA h, r : [h EXCEPT ![r] = ExpandRow(h[r], aln, side)], H, refs)
+HeapInit(inputs, objs, copy) ==
+  LET n == Len(inputs) IN
+  [H |-> IF copy THEN inputs \o [k \in 1..n |-> inputs[objs[k]]] ELSE inputs,
+   F |-> {[idx |-> <<k>>, refs |-> <<IF copy THEN n + k ELSE objs[k]>>] : k \in 1..n}]
+HeapStep(acc, e) ==
+  LET g1 == GroupOf(acc.F, e.a)
+      g2 == GroupOf(acc.F, e.b)
+      H1 == ExpandAll(acc.H, g1.refs, e.tr, 1)
+      H2 == ExpandAll(H1, g2.refs, e.tr, 2)
+  IN [H |-> H2, F |-> (acc.F \ {g1, g2}) \cup {[idx |-> g1.idx \o g2.idx, refs |-> g1.refs \o g2.refs]}]
+\* complete merge history (one group left) -> gapped rows in input order, Alignment.sequences,
+\* and the caller's objects after the call
+HeapRun(inputs, objs, hist, copy) ==
+  LET r == FoldLeft(HeapStep, HeapInit(inputs, objs, copy), hist)
+      g == CHOOSE x \in r.F : TRUE
+      gapped == [k \in DOMAIN g.refs |-> r.H[g.refs[k]]]
+      o == ArgSort(g.idx)
+      Hs == FoldLeft(LAMBDA h, x : [h EXCEPT ![x] = NonGap(h[x])], r.H, g.refs)
+  IN [rows  |-> [k \in DOMAIN o |-> gapped[o[k]]],
+      seqs  |-> [k \in DOMAIN o |-> Hs[g.refs[o[k]]]],
+      after |-> [k \in DOMAIN inputs |-> Hs[objs[k]]]]
 =============================================================================
